@@ -55,8 +55,7 @@ def units(tier):
     for part in spaces.shard(list(range(7, 131 if tier == 'quick' else 400)), 8):
         out.append({'fam': 'stridesweep', 'strides': part})
     out.append({'fam': 'manykeys', 'keys': 4100})
-    if tier != 'quick':
-        out.append({'fam': 'verylong', 'n': 140000})
+    out.append({'fam': 'verylong', 'n': 140000})
     nest = [(2, 1), (2, 2), (3, 2), (1, 2), (3, 1)]
     for (w1, s1) in nest:
         for (w2, s2) in nest:
